@@ -361,9 +361,19 @@ class LRTable(object):
                 return self.prec.get(s, ("right", 0))
         return ("right", 0)
 
-    def accepts(self, tokens):
+    def conflict_at(self):
+        """{(state, token): "<rule> before <token>"} for the shift/reduce and reduce/reduce conflicts yacc resolved silently"""
+        out = {}
+        for s_, a_, kind, chosen, p_ in self.conflicts:
+            pi = p_ if isinstance(p_, int) else chosen
+            lhs, rhs, _pn, _l = self.prods[pi]
+            out[(s_, a_)] = "%s : %s before %s" % (lhs, " ".join(rhs) or "<empty>", a_)
+        return out
+
+    def accepts(self, tokens, seen=None, at=None):
         """run the automaton on token names; PLY's default reductions (a state whose only action is one reduction reduces without
-        reading the next token) do not change what is accepted"""
+        reading the next token) do not change what is accepted.  `seen` collects the conflicts (from `at` = conflict_at()) the
+        run went through"""
         stack = [0]
         toks = list(tokens) + ["$end"]
         i = 0
@@ -373,6 +383,8 @@ class LRTable(object):
             if steps > 100000:
                 raise AnalysisError("LR simulation does not terminate")
             a = self.action[stack[-1]].get(toks[i])
+            if seen is not None and at and (stack[-1], toks[i]) in at:
+                seen.add(at[(stack[-1], toks[i])])
             if a is None:
                 return False
             if a[0] == "accept":
@@ -388,3 +400,42 @@ class LRTable(object):
                 if g is None:
                     return False
                 stack.append(g)
+
+
+def sentences(productions, start, maxlen, cap=400000):
+    """every sentence (tuple of token names) of at most `maxlen` tokens the productions derive from `start`; None when more than
+    `cap` sentential forms would have to be kept"""
+    prods = {}
+    for p in productions:
+        prods.setdefault(p.lhs, []).append(tuple(p.rhs))
+    nts = set(prods)
+    INF = 10 ** 9
+    ml = {n: INF for n in nts}
+    ch = True
+    while ch:
+        ch = False
+        for n, alts in prods.items():
+            for a in alts:
+                v = sum(ml.get(x, 1) if x in nts else 1 for x in a)
+                if v < ml[n]:
+                    ml[n] = v
+                    ch = True
+
+    def minlen(form):
+        return sum(ml[x] if x in nts else 1 for x in form)
+
+    seen, out, stack = set(), set(), [(start,)]
+    while stack:
+        f = stack.pop()
+        i = next((k for k, x in enumerate(f) if x in nts), None)
+        if i is None:
+            out.add(f)
+            continue
+        for a in prods[f[i]]:
+            g = f[:i] + a + f[i + 1:]
+            if g not in seen and minlen(g) <= maxlen:
+                seen.add(g)
+                stack.append(g)
+                if len(seen) > cap:
+                    return None
+    return out
